@@ -61,12 +61,16 @@ def check_C17(tier):
     # producers with further regular out-ports besides the streaming one (the order in which the Run loop visits them is random)
     for rep in range(8 if thorough else 4):
         cases.append((rng.choice([1, 2]), rng.choice([0, 1000, 65537]), "together", True))
+    # a stale regular file sits at the streaming output path (left by an earlier non-streaming version of the workflow)
+    cases.append((2, 1000, "stale", False))
     def one(c):
         n, pad, order, multi = c
         ctl = {}
         if order == "producer_lingers": ctl["p.postsleep"] = "0.4"
         if order == "consumer_lingers": ctl["c.postsleep"] = "0.4"
         inst = stream_inst(n, 2 * n + rng.choice([0, 1]), pad, ctl, extra_outs=("copy", "copy2") if multi else ())
+        if order == "stale":
+            inst["pre"] = ["p.out_1"]
         vs = [dict(env={}, bufsize=4, timeout=40), dict(env={"VERIF_JITTER": str(rng.randrange(10**6))}, bufsize=1, timeout=40)]
         return c, inst, fc.real_runs(inst, vs[: (2 if thorough else 1)] if pad < 100000 else vs[:1])
     for c, inst, rrs in pmap(one, cases, workers=8):
@@ -86,7 +90,7 @@ def check_C17(tier):
                 got = snap.get(cpath, {}).get("text")
                 if got != want:
                     chk.violation("consumer did not receive exactly the producer's bytes (%s): %d bytes instead of %d" % (label, len(got or ""), len(want)), replay)
-                if ppath in snap or ppath in ret:
+                if (ppath in snap or ppath in ret) and path_id(ppath) not in inst.get("pre", []):
                     chk.violation("a regular file appeared at the streaming output path %s (%s)" % (ppath, label), replay)
                 aud = snap.get(cpath + ".audit.json", {}).get("text")
                 up = (json.loads(aud).get("Upstream") or {}) if aud else {}
